@@ -173,11 +173,11 @@ func render(v any) string {
 // ---- WHERE features -----------------------------------------------------------------------------
 
 var (
-	reDate = regexp.MustCompile(`(greaterOrEquals|greater|lessOrEquals|less)\((?:\w+\.)?date, (?:toDate\()?'(\d{4}-\d\d-\d\d)'\)?\)`)
+	reDate   = regexp.MustCompile(`(greaterOrEquals|greater|lessOrEquals|less)\((?:\w+\.)?date, (?:toDate\()?'(\d{4}-\d\d-\d\d)'\)?\)`)
 	reDateIn = regexp.MustCompile(`in\((?:\w+\.)?date, (?:tuple\()?((?:'\d{4}-\d\d-\d\d'(?:, )?)+)\)`)
-	reTs   = regexp.MustCompile(`(greaterOrEquals|greater|lessOrEquals|less)\((?:\w+\.)?(?:timestamp_ns|start_time_unix_nano), (-?\d+)\)`)
-	reType = regexp.MustCompile(`in\((?:\w+\.)?type, `)
-	reKey  = regexp.MustCompile(`in\((?:\w+\.)?(?:fingerprint|trace_id|span_id), |in\(tuple\((?:\w+\.)?trace_id|equals\((?:\w+\.)?trace_id, `)
+	reTs     = regexp.MustCompile(`(greaterOrEquals|greater|lessOrEquals|less)\((?:\w+\.)?(?:timestamp_ns|start_time_unix_nano), (-?\d+)\)`)
+	reType   = regexp.MustCompile(`in\((?:\w+\.)?type, `)
+	reKey    = regexp.MustCompile(`in\((?:\w+\.)?(?:fingerprint|trace_id|span_id), |in\(tuple\((?:\w+\.)?trace_id|equals\((?:\w+\.)?trace_id, `)
 )
 
 type whereInfo struct {
